@@ -162,3 +162,20 @@ def test_member_conservative():
     assert m(mixed2, F[Leaf[object]]) is False  # recorded as FrozenSet[Leaf]
     assert m(mixed2, F[Term]) is True
     assert m((Leaf(()),), T[Leaf[T[int, ...]]]) is False and ref.member((Leaf(()),), d(T[Leaf[T[int, ...]]])) is True
+
+
+def test_plain_classes_and_abcs():
+    import collections.abc as cabc
+
+    assert sub(T[int, str], cabc.Sequence) is True and sub(T[int, ...], cabc.Hashable) is True
+    assert sub(tuple, cabc.Sized) is True and sub(F[int], cabc.Set) is True and sub(frozenset, cabc.Sequence) is False
+    assert sub(T[int], cabc.Mapping) is False and sub(T[int], int) is False
+    assert sub(T[T[int], str], T[cabc.Sequence, cabc.Hashable]) is True
+    assert sub(Leaf[int], cabc.Hashable) is True and sub(Leaf[int], cabc.Sequence) is False
+    assert ref.member((1, 2), d(cabc.Sequence)) is True and ref.member(frozenset([1]), d(cabc.Sequence)) is False
+    s_seq = sig(cabc.Sequence)
+    s_tup = sig(T[Term, ...])
+    assert ref.sig_leq(s_tup, s_seq) and not ref.sig_leq(s_seq, s_tup)
+    types = (d(T[Leaf, Node]),)
+    assert ref.decide(types, [(sig(var=[A]), 0), (s_seq, 1), (s_tup, 2)]) == ([0, 1, 2], [2])
+    assert ref.decide((d(T[int, int]),), [(sig(var=[A]), 0), (s_seq, 1), (s_tup, 2)]) == ([0, 1], [1])
